@@ -365,6 +365,58 @@ pub fn all_scenarios(opts: &Opts, st: &mut Stats) -> Vec<(History, Vec<String>)>
         s.simple("expire_ask", "exec1", 2, None, true);
         out.push(s.done());
     }
+    // S16: a fee-bearing bid stored in the old event-log format whose history has a fill AND a partial
+    // reject that returned fee; converted by a migration, then filled, rejected and cancelled. The
+    // bookkeeping beside the book continues from what the history really produced.
+    {
+        let mut s = Script::new("old-format-bid-with-fee-returning-reject", opts, st);
+        s.market(&Market { bid_fee: Some(("feeb", "0.1")), ..Default::default() });
+        s.bid(1, "bobby", "10", 10);
+        s.ask(2, "alice", "base", "10", 10);
+        s.mtch(2, 1, "10", 2, true);
+        s.simple("reject_bid", "exec1", 1, Some(3), true);
+        let original = s.hist.w.clone();
+        let c = |a: u128, d: &str| json!({"amount": a.to_string(), "denom": d});
+        let blk = json!({"height": 12345, "time": "1571797419879305533"});
+        let v2 = json!({"base": c(10, "base"), "events": [
+            {"action": {"Fill": {"base": c(2, "base"), "fee": c(2, "q0"), "price": "10", "quote": c(20, "q0")}}, "block_info": blk},
+            {"action": {"Reject": {"base": c(3, "base"), "fee": c(3, "q0"), "quote": c(30, "q0")}}, "block_info": blk}],
+            "fee": c(10, "q0"), "id": uuid(1), "owner": "bobby", "price": "10", "quote": c(100, "q0")});
+        s.op(Op::PutRaw { key: map_key("bid", &uuid(1)), value: Some(serde_json::to_vec(&v2).unwrap()) }, true);
+        s.op(crate::migrate::version_op("0.18.2"), true);
+        if s.op(Op::Migrate { msg: json!({}) }, true).is_ok() {
+            s.hist.h.resync(&original);
+        }
+        s.mtch(2, 1, "10", 2, true);
+        s.simple("reject_bid", "exec1", 1, Some(1), true);
+        s.simple("cancel_bid", "bobby", 1, None, true);
+        s.simple("cancel_ask", "alice", 2, None, true);
+        out.push(s.done());
+    }
+    // S17: an old-format bid filled twice by the same amount in one block (two identical consecutive
+    // entries in its log); after the migration a match one above what really remains must be refused
+    {
+        let mut s = Script::new("old-format-bid-with-two-identical-fills", opts, st);
+        s.market(&Market::default());
+        s.bid(1, "bobby", "2", 10);
+        s.ask(2, "alice", "base", "2", 20);
+        s.mtch(2, 1, "2", 3, true);
+        s.mtch(2, 1, "2", 3, true);
+        let original = s.hist.w.clone();
+        let c = |a: u128, d: &str| json!({"amount": a.to_string(), "denom": d});
+        let blk = json!({"height": 100, "time": "1571797419879305533"});
+        let fill = json!({"action": {"Fill": {"base": c(3, "base"), "fee": Value::Null, "price": "2", "quote": c(6, "q0")}}, "block_info": blk});
+        let v2 = json!({"base": c(10, "base"), "events": [fill.clone(), fill], "fee": Value::Null, "id": uuid(1), "owner": "bobby", "price": "2", "quote": c(20, "q0")});
+        s.op(Op::PutRaw { key: map_key("bid", &uuid(1)), value: Some(serde_json::to_vec(&v2).unwrap()) }, true);
+        s.op(crate::migrate::version_op("0.19.0"), true);
+        if s.op(Op::Migrate { msg: json!({}) }, true).is_ok() {
+            s.hist.h.resync(&original);
+        }
+        s.mtch(2, 1, "2", 5, false);
+        s.mtch(2, 1, "2", 4, true);
+        s.simple("cancel_ask", "alice", 2, None, true);
+        out.push(s.done());
+    }
     // S12: KF1 - pro-rata quotient formed in 28-digit decimals, at amounts where fee x quote ~ 1e27+
     {
         let mut s = Script::new("kf1-large-amount-quotient", opts, st);
